@@ -305,7 +305,7 @@ harness_run(void)
 {
     for (uint64_t i = 0; i < 12; i++)
         vh_unit("closure", i, u_closure, NULL);
-    uint64_t nh = vh_tier ? 4000 : 160;
+    uint64_t nh = vh_tier ? 24000 : 160;
     for (uint64_t i = 0; i < nh; i++)
         vh_unit("history", i, u_history, NULL);
     vh_require("closure complete cap=1 [u8]");
